@@ -426,8 +426,10 @@ pub trait QueryBuilder:
                             Some(Token::Unquoted(tok)) if numbered => {
                                 if let Ok(num) = tok.parse::<usize>() {
                                     self.prepare_simple_expr(&values[num - 1], sql);
+                                    tokenizer.next();
+                                } else {
+                                    write!(sql, "{mark}").unwrap();
                                 }
-                                tokenizer.next();
                             }
                             _ => {
                                 self.prepare_simple_expr(&values[count], sql);
